@@ -1118,6 +1118,9 @@ func init() {
 					units = append(units, Unit{"VerifC19Reject", []string{op, f}})
 				}
 			}
+			for _, op := range []string{"date", "datetime", "to_date", "to_datetime", "t_date", "t_time", "td_date", "td_time"} {
+				units = append(units, Unit{"VerifC19Reject", []string{op, "datetypes"}})
+			}
 			for _, r := range c19Dates {
 				units = append(units, Unit{"VerifC19Date", []string{r[0], r[1], r[2], r[3]}})
 			}
@@ -1200,6 +1203,21 @@ func init() {
 				}
 				for _, src := range []string{"(= i0 i1)", "(!= i0 i1)", "(eq i0 i1 i2)", "(in i0 i1)", "(overlap i0 i1)", "(between i0 i1 i2)", "(xor b0 b1)", "(t_version i0)", "(date i0 i1)", "(version i0 i1)", "(% i0 i1)", "(if b0 i0 i1)"} {
 					units = append(units, Unit{"VerifC06Run", []string{src, "", "all", "*"}})
+				}
+				// every built-in operator on operands of any type and any small count
+				var opNames []string
+				for _, o := range observeConcrete(sh, "VerifOpNames", nil) {
+					if strings.HasPrefix(o, "ops=") {
+						opNames = strings.Fields(strings.TrimPrefix(o, "ops="))
+					}
+				}
+				for _, name := range opNames {
+					for n := 0; n <= 2; n++ {
+						units = append(units, Unit{"VerifC06Op", []string{name, itoa2(n)}})
+					}
+					if tier == "thorough" {
+						units = append(units, Unit{"VerifC06Op", []string{name, "3"}})
+					}
 				}
 				return units
 			})
